@@ -449,11 +449,13 @@ static void FuncLD(TempResult* pResult, TempResult const* pArgs, unsigned ArgCnt
 }
 
 static void FuncASINH(TempResult* pResult, TempResult const* pArgs, unsigned ArgCnt) {
+    Double Arg = fabs(pArgs[0].Contents.Float), Result;
+
     UNUSED(ArgCnt);
 
-    as_tempres_set_float(
-            pResult, log(pArgs[0].Contents.Float
-                         + sqrt(pArgs[0].Contents.Float * pArgs[0].Contents.Float + 1)));
+    /* odd function: evaluate for |arg|, x + sqrt(x*x + 1) cancels for negative x */
+    Result = log(Arg + sqrt(Arg * Arg + 1));
+    as_tempres_set_float(pResult, (pArgs[0].Contents.Float < 0) ? -Result : Result);
 }
 
 static void FuncACOSH(TempResult* pResult, TempResult const* pArgs, unsigned ArgCnt) {
